@@ -2,7 +2,7 @@
 """Applicability audit for deterministic simulation with fault injection (DST).
 
 NOT a property check.  It re-derives, on the CURRENT /repo working tree, the
-premises on which /verif/DESIGN.md answers "not applicable" (first for C01-C18, now for C01-C15):
+premises on which /verif/DESIGN.md answers "not applicable" (first for C01-C18, now for C01-C04 and C06-C15):
 num-dual contains nothing a simulator could own (no threads, locks, atomics,
 interior mutability, statics, clocks, I/O, randomness, async, Drop logic,
 multiply-invoked callbacks, GIL release) and pulls in no dependency that does.
@@ -194,7 +194,7 @@ def audit(repo, with_deps=True, quiet=False):
     if broken:
         say("RESULT: a premise no longer holds -> revisit DESIGN.md section 7 for the properties named above")
         return 3, report
-    say("RESULT: all premises hold -> no thread, clock, I/O or shared-state surface; DST stays not applicable to C01-C15 (C16, C17, C18 are simulated on the serde, callback and sink seams; DESIGN.md sections 0-4, 10, 13)")
+    say("RESULT: all premises hold -> no thread, clock, I/O or shared-state surface; DST stays not applicable to C01-C04 and C06-C15 (C05, C16, C17, C18 are simulated on the closure, serde, callback and sink seams; DESIGN.md sections 0-4, 10, 13, 15)")
     return 0, report
 
 
